@@ -335,8 +335,21 @@ def make_header(h):
     return None if h is None else rtf.RTFColumnHeader(**h)
 
 
-def build(spec: dict):
-    """Construct the real RTFDocument described by a JSON-able spec."""
+def build(spec: dict, share: dict | None = None, inputs: dict | None = None):
+    """Construct the real RTFDocument described by a JSON-able spec.
+
+    share: a cache of component objects; equal-valued component specs then reuse ONE object across documents.
+    inputs: receives the keyword arguments (the caller's own objects) the document was constructed from."""
+    import json as _json
+
+    def mk(cls, v, name):
+        if share is None:
+            return cls(**v)
+        key = (name, _json.dumps(v, sort_keys=True, default=str))
+        if key not in share:
+            share[key] = cls(**v)
+        return share[key]
+
     kw = {}
     if "figure" in spec:
         fig = dict(spec["figure"])
@@ -351,20 +364,21 @@ def build(spec: dict):
         kw["rtf_figure"] = rtf.RTFFigure(**fig)
     elif "sections" in spec:
         kw["df"] = [make_df(s["df"]) for s in spec["sections"]]
-        kw["rtf_body"] = [rtf.RTFBody(**s.get("body", {})) for s in spec["sections"]]
+        kw["rtf_body"] = [mk(rtf.RTFBody, s.get("body", {}), "body") for s in spec["sections"]]
     else:
         kw["df"] = make_df(spec["df"])
-        kw["rtf_body"] = rtf.RTFBody(**spec.get("body", {}))
+        kw["rtf_body"] = mk(rtf.RTFBody, spec.get("body", {}), "body")
     for name, cls in COMPONENTS.items():
         if name in spec:
             v = spec[name]
-            kw["rtf_" + name] = None if v is None else cls(**v)
+            kw["rtf_" + name] = None if v is None else mk(cls, v, name)
     if "headers" in spec:
         hs = spec["headers"]
+        mh = lambda h: None if h is None else mk(rtf.RTFColumnHeader, h, "header")
         if hs and isinstance(hs[0], list):
-            kw["rtf_column_header"] = [[make_header(h) for h in sec] for sec in hs]
+            kw["rtf_column_header"] = [[mh(h) for h in sec] for sec in hs]
         else:
-            kw["rtf_column_header"] = [make_header(h) for h in hs]
+            kw["rtf_column_header"] = [mh(h) for h in hs]
     if "_prior_df" in spec and "df" in kw and not isinstance(kw["df"], list):
         # history: the same component objects were first used by an earlier document
         prior = dict(kw)
@@ -375,6 +389,8 @@ def build(spec: dict):
                 earlier.rtf_encode()
         except Exception:  # noqa: BLE001
             pass
+    if inputs is not None:
+        inputs.update(kw)
     return rtf.RTFDocument(**kw)
 
 
